@@ -57,6 +57,8 @@ _SYN_MIXTURES = {
 _SYN_COMPONENTS["H2O"] = dict(_SYN_COMPONENTS["SC"])
 _SYN_COMPONENTS["EtOH"] = dict(_SYN_COMPONENTS["SD"])
 _SYN_MIXTURES["S5"] = ("H2O", "EtOH", dict(g12=1500.0, g21=2600.0, alpha12=0.45), (150.0, -60.0, -1200.0, 2100.0, 12))
+# S6: the FIRST component is the heavier one (every built-in mixture and S1..S5 list the lighter component first)
+_SYN_MIXTURES["S6"] = ("SD", "SB", dict(g12=2100.0, g21=3400.0, alpha12=0.35, alpha21=0.5, a12=-0.2, a21=0.45), (-90.0, 170.0, 1900.0, -800.0, 10))
 SYNTHETIC_MIXTURES = list(_SYN_MIXTURES)
 ALL_MIXTURES = BUILTIN_MIXTURES + SYNTHETIC_MIXTURES
 
